@@ -161,7 +161,8 @@ def async_fifo_contract(cfg):
         z3.Extract(dw, dw, f(inner.din)) == f(fifo.sink.first), z3.Extract(dw + 1, dw + 1, f(inner.din)) == f(fifo.sink.last),
         z3.Extract(dw, dw, f(inner.dout)) == f(fifo.source.first), z3.Extract(dw + 1, dw + 1, f(inner.dout)) == f(fifo.source.last)))
     c.cover("watched_item_crosses", lambda f: W["g"](f, "st") == 2, within=14)
-    c.cover("fifo_full", lambda f: Not(f.b(inner.writable)), within=3 * cfg["depth"] + 4)
+    if cfg["depth"] <= 8:               # (deeper FIFOs: the same reachability guard would need a very long unrolling)
+        c.cover("fifo_full", lambda f: Not(f.b(inner.writable)), within=3 * cfg["depth"] + 4)
     return c
 
 
